@@ -181,10 +181,12 @@ func (j *fakeJrnl) Chunks() journal.ChnksController { return nil }
 
 // fakeIt is a journal iterator over an endless empty stream: only its position matters
 type fakeIt struct {
-	mu     sync.Mutex
-	name   string
-	pos    journal.Pos
-	closes int
+	mu      sync.Mutex
+	name    string
+	pos     journal.Pos
+	closes  int
+	gate    chan struct{} // armed by the harness: the next Release() (crsr.commit) parks here ...
+	reached chan struct{} // ... after closing this
 }
 
 func (it *fakeIt) Close() error {
@@ -197,7 +199,32 @@ func (it *fakeIt) Next(ctx context.Context) {}
 func (it *fakeIt) Get(ctx context.Context) (records.Record, error) {
 	return nil, io.EOF
 }
-func (it *fakeIt) Release()                        {}
+
+// Release is what crsr.commit calls after it has read the final position: the one place inside provider.Release()
+// where the harness can park a request (armed by relBegin) while other requests and the sweeps go on
+func (it *fakeIt) Release() {
+	it.mu.Lock()
+	g, rch := it.gate, it.reached
+	it.gate, it.reached = nil, nil
+	it.mu.Unlock()
+	if g != nil {
+		close(rch)
+		<-g
+	}
+}
+func (it *fakeIt) arm() (gate, reached chan struct{}) {
+	gate, reached = make(chan struct{}), make(chan struct{})
+	it.mu.Lock()
+	it.gate, it.reached = gate, reached
+	it.mu.Unlock()
+	return
+}
+func (it *fakeIt) disarm() {
+	it.mu.Lock()
+	it.gate, it.reached = nil, nil
+	it.mu.Unlock()
+}
+
 func (it *fakeIt) SetBackward(bool)                {}
 func (it *fakeIt) CurrentPos() records.IteratorPos { return records.IteratorPosUnknown }
 func (it *fakeIt) Pos() journal.Pos                { it.mu.Lock(); defer it.mu.Unlock(); return it.pos }
@@ -259,7 +286,7 @@ type PosSpec struct {
 }
 
 type Step struct {
-	Kind  string  `json:"k"` // lookup | create | use | release | sweepsize | sweeptime | tick | shutdown
+	Kind  string  `json:"k"` // lookup | create | use | release | relbegin | relend | sweepsize | sweeptime | tick | shutdown
 	R     int     `json:"r,omitempty"`
 	Id    uint64  `json:"id,omitempty"`
 	Cache bool    `json:"cache,omitempty"`
@@ -363,7 +390,10 @@ const (
 	stEarly
 	stHold
 	stHoldEmpty
+	stReleasing // inside provider.Release(), parked in crsr.commit (relbegin done, relend to come); still the cursor's user
 )
+
+func holding(a *actor) bool { return a.st == stHold || a.st == stReleasing }
 
 type curRec struct {
 	cid    int
@@ -392,6 +422,11 @@ type result struct {
 	panicked interface{}
 }
 
+type relResult struct {
+	state cursor.State
+	pv    interface{}
+}
+
 type actor struct {
 	st        int
 	req       *reqInfo
@@ -402,6 +437,14 @@ type actor struct {
 	effKnown  bool
 	crec      *curRec
 	cur       cursor.Cursor
+	relGate   chan struct{}  // stReleasing: closed by relEnd to let Release() go on
+	relDone   chan relResult // stReleasing: the outcome of Release()
+}
+
+// rawPos is a State.Pos string as Release returned it, with the query of the cursor it came from
+type rawPos struct {
+	s     string
+	query string
 }
 
 type exec struct {
@@ -420,6 +463,7 @@ type exec struct {
 	tags     map[string]bool
 	freshCtr uint64
 	lastPos  map[uint64]PosSpec // per id: the position the server returned last
+	lastRaw  map[uint64]rawPos  // per id: that position as the server wrote it (State.Pos lists the partitions in Go map order)
 	nontriv  bool
 	shutdown bool
 }
@@ -428,7 +472,7 @@ const unit = time.Hour
 const deadline = 60 * time.Second
 
 func newExec(rp *Replay) *exec {
-	x := &exec{rp: rp, actors: map[int]*actor{}, byPtr: map[cursor.Cursor]*curRec{}, tags: map[string]bool{}, lastPos: map[uint64]PosSpec{}}
+	x := &exec{rp: rp, actors: map[int]*actor{}, byPtr: map[cursor.Cursor]*curRec{}, tags: map[string]bool{}, lastPos: map[uint64]PosSpec{}, lastRaw: map[uint64]rawPos{}}
 	x.p = cursor.NewProvider()
 	x.f = newFactory()
 	cursor.VC15Configure(x.p, x.f, rp.Max, time.Duration(rp.Idle)*unit, time.Duration(rp.Busy)*unit)
@@ -516,10 +560,23 @@ func (x *exec) Exec(st Step) error {
 		return nil
 	}
 	switch st.Kind {
+	case "lookup", "create", "use", "relbegin":
+		// a request parked inside Release() does nothing else before that Release() has returned
+		if a := x.actors[st.R]; a != nil && a.st == stReleasing {
+			if err := x.relEnd(st.R); err != nil || x.stopped {
+				return err
+			}
+		}
+	}
+	switch st.Kind {
 	case "lookup":
 		return x.lookup(st)
 	case "create":
 		return x.create(st)
+	case "relbegin":
+		return x.relBegin(st)
+	case "relend":
+		return x.relEnd(st.R)
 	case "use":
 		a := x.actor(st.R)
 		op := GApp("OUse", GNat(st.R), GN(st.N))
@@ -620,7 +677,7 @@ func (x *exec) lookup(st Step) error {
 				continue
 			}
 			if b.effKnown && b.effId == st.Id {
-				if b.st == stHold && b.crec != nil && b.crec.cached && wasCached {
+				if holding(b) && b.crec != nil && b.crec.cached && wasCached {
 					expectRefused = true
 				} else {
 					x.undisc = true
@@ -632,6 +689,12 @@ func (x *exec) lookup(st Step) error {
 	ri := &reqInfo{actor: st.R, gate: make(chan struct{}), reached: make(chan struct{})}
 	ctx := context.WithValue(context.Background(), ctxKey{}, ri)
 	state := cursor.State{Id: st.Id, Query: queries[st.Q].Text, Pos: renderPos(st.Pos, st.Q)}
+	// GetOrCreate compares the Pos strings: "the position the server returned" is sent as the server wrote it
+	if raw, ok := x.lastRaw[st.Id]; ok && st.Pos.Kind == "at" && raw.query == state.Query {
+		if lp := parsePos(raw.s); lp.Kind == "at" && lp.Hi == st.Pos.Hi && lp.Lo == st.Pos.Lo {
+			state.Pos = raw.s
+		}
+	}
 	done := make(chan result, 1)
 	go func() {
 		var r result
@@ -650,13 +713,19 @@ func (x *exec) lookup(st Step) error {
 	select {
 	case <-ri.reached:
 		a.st = stGate
-		a.effKnown = st.Id != 0 && !wasCached // otherwise the id is a fresh one, not known yet
+		// a cached idle cursor that stands at another position than the requested one has been dropped: the request
+		// keeps its id; otherwise (ApplyState failed) the id is a fresh one, not known yet
+		dropped := wasCached && !cachedHas(cursor.VC15CachedIds(x.p), st.Id)
+		a.effKnown = st.Id != 0 && (!wasCached || dropped)
 		a.effId = st.Id
 		x.emit(x.lookupOp(st, placeholder), "RMiss", true)
 		if expectRefused {
 			x.fail("busy-not-refused", fmt.Sprintf("id %d is cached and in use, the request was not refused", st.Id))
 		}
-		if wasCached {
+		if dropped {
+			x.tags["other-position-dropped"] = true
+			x.nontriv = true
+		} else if wasCached {
 			x.tags["apply-fallback"] = true
 			x.nontriv = true
 		}
@@ -823,17 +892,87 @@ func (x *exec) create(st Step) error {
 
 func (x *exec) release(st Step) error {
 	a := x.actor(st.R)
+	if a.st == stReleasing {
+		return x.relEnd(st.R)
+	}
 	op := GApp("ORelease", GNat(st.R))
 	if a.st != stHold && a.st != stHoldEmpty {
 		x.emit(op, "RNone", true)
 		return nil
 	}
-	var state cursor.State
-	var pv interface{}
+	var rr relResult
 	func() {
-		defer func() { pv = recover() }()
-		state = x.p.Release(context.Background(), a.cur)
+		defer func() { rr.pv = recover() }()
+		rr.state = x.p.Release(context.Background(), a.cur)
 	}()
+	x.released(st.R, rr)
+	return nil
+}
+
+// relBegin starts Release() of the cursor request r holds and lets it run until crsr.commit calls the iterators'
+// Release(), where it parks (no lock held). The request is still the user of its cursor: until relEnd a lookup of its
+// id must be refused and no sweep may close the cursor. The model has nothing to do here: its ORelease (commit + the
+// locked region) is the relEnd step; for the code as it is the two agree because commit comes before the locked region.
+func (x *exec) relBegin(st Step) error {
+	a := x.actor(st.R)
+	if a.st != stHold || a.crec == nil || len(a.crec.iters) == 0 {
+		return nil
+	}
+	gate, reached := a.crec.iters[0].arm()
+	done := make(chan relResult, 1)
+	cur := a.cur
+	go func() {
+		var rr relResult
+		defer func() {
+			if pv := recover(); pv != nil {
+				rr.pv = pv
+			}
+			done <- rr
+		}()
+		rr.state = x.p.Release(context.Background(), cur)
+	}()
+	tm := time.NewTimer(deadline)
+	defer tm.Stop()
+	select {
+	case <-reached:
+		a.st, a.relGate, a.relDone = stReleasing, gate, done
+		x.tags["release-window"] = true
+	case rr := <-done:
+		// Release() came back without committing the cursor
+		a.crec.iters[0].disarm()
+		x.released(st.R, rr)
+	case <-tm.C:
+		return fmt.Errorf("Release neither returned nor reached the commit of its cursor within %v", deadline)
+	}
+	x.invariantChecks()
+	return nil
+}
+
+// relEnd lets the Release() parked by relBegin finish
+func (x *exec) relEnd(r int) error {
+	a := x.actor(r)
+	if a.st != stReleasing {
+		return nil
+	}
+	close(a.relGate)
+	tm := time.NewTimer(deadline)
+	defer tm.Stop()
+	select {
+	case rr := <-a.relDone:
+		a.st = stHold
+		a.relGate, a.relDone = nil, nil
+		x.released(r, rr)
+	case <-tm.C:
+		return fmt.Errorf("Release did not return within %v after the commit gate was opened", deadline)
+	}
+	return nil
+}
+
+// released: Release() of request r has returned (or panicked)
+func (x *exec) released(r int, rr relResult) {
+	a := x.actor(r)
+	op := GApp("ORelease", GNat(r))
+	state, pv := rr.state, rr.pv
 	if pv != nil {
 		x.coqOps = append(x.coqOps, op)
 		x.panicked, x.stopped = true, true
@@ -842,7 +981,7 @@ func (x *exec) release(st Step) error {
 			cls = "panic:release-not-busy"
 		}
 		x.fail(cls, fmt.Sprint(pv))
-		return nil
+		return
 	}
 	ps := parsePos(state.Pos)
 	if c := a.crec; c != nil {
@@ -864,13 +1003,13 @@ func (x *exec) release(st Step) error {
 		}
 		if state.Id != 0 {
 			x.lastPos[state.Id] = ps
+			x.lastRaw[state.Id] = rawPos{s: state.Pos, query: state.Query}
 		}
 	}
 	a.st, a.crec, a.cur = stIdle, nil, nil
 	a.effKnown = false
 	x.emit(op, GApp("RReleased", GN(state.Id), gPos(ps)), true)
 	x.invariantChecks()
-	return nil
 }
 
 // quiesce: every request finishes, the clock passes every time-out, the sweeper runs; then
@@ -899,7 +1038,7 @@ func (x *exec) drain() error {
 			return err
 		}
 		for _, r := range rs {
-			if a := x.actors[r]; a.st == stHold || a.st == stHoldEmpty {
+			if a := x.actors[r]; holding(a) || a.st == stHoldEmpty {
 				if err := x.Exec(Step{Kind: "release", R: r}); err != nil {
 					return err
 				}
@@ -917,7 +1056,7 @@ func (x *exec) drain() error {
 				return err
 			}
 		}
-		if a.st == stHold || a.st == stHoldEmpty {
+		if holding(a) || a.st == stHoldEmpty {
 			if err := x.Exec(Step{Kind: "release", R: r}); err != nil {
 				return err
 			}
@@ -972,6 +1111,14 @@ func (x *exec) cleanup() {
 			close(a.req.gate)
 			select {
 			case <-a.done:
+			case <-time.After(deadline):
+			}
+			a.st = stIdle
+		}
+		if a.st == stReleasing {
+			close(a.relGate)
+			select {
+			case <-a.relDone:
 			case <-time.After(deadline):
 			}
 			a.st = stIdle
@@ -1076,7 +1223,7 @@ func genScript(r *Rng, g genCfg, rp *Replay) (*exec, error) {
 				ok := true
 				for r2, b := range x.actors {
 					if r2 != rr && b.st != stIdle && b.st != stHoldEmpty && b.effKnown && b.effId == id {
-						if !(b.st == stHold && b.crec != nil && b.crec.cached && cachedHas(cursor.VC15CachedIds(x.p), id)) {
+						if !(holding(b) && b.crec != nil && b.crec.cached && cachedHas(cursor.VC15CachedIds(x.p), id)) {
 							ok = false
 						}
 					}
@@ -1113,7 +1260,16 @@ func genScript(r *Rng, g genCfg, rp *Replay) (*exec, error) {
 				if err := do(Step{Kind: "use", R: rr, N: uint64(r.PickInt(1, 1, 2, 3, 7, 20))}); err != nil {
 					return x, err
 				}
+			} else if a.st == stHold && r.Chance(2, 5) {
+				// the release in two steps: whatever is drawn before this request comes up again happens inside its Release()
+				if err := do(Step{Kind: "relbegin", R: rr}); err != nil {
+					return x, err
+				}
 			} else if err := do(Step{Kind: "release", R: rr}); err != nil {
+				return x, err
+			}
+		case stReleasing:
+			if err := do(Step{Kind: "relend", R: rr}); err != nil {
 				return x, err
 			}
 		}
@@ -1169,6 +1325,20 @@ func corpus() []Replay {
 			{Kind: "lookup", R: 0, Id: 5, Cache: false, Q: 1, Pos: head}, {Kind: "create", R: 0},
 			{Kind: "lookup", R: 1, Id: 5, Cache: true, Q: 1, Pos: head}, {Kind: "create", R: 1},
 			{Kind: "release", R: 0}, {Kind: "tick", N: 4}, {Kind: "sweeptime"}, {Kind: "release", R: 1}}},
+		// inside Release(): between the start of Release() and its return the request is still the user of its cursor: a
+		// request for the id is refused, the sweeper (idle time-out passed, busy time-out not) leaves the cursor alone
+		{Kind: "script", Name: "lookup-inside-release", Max: 10, Idle: 3, Busy: 7, Steps: []Step{
+			{Kind: "lookup", R: 0, Id: 5, Cache: true, Q: 0, Pos: head}, {Kind: "create", R: 0}, {Kind: "use", R: 0, N: 2},
+			{Kind: "relbegin", R: 0},
+			{Kind: "lookup", R: 1, Id: 5, Cache: true, Q: 0, Pos: at(2)},
+			{Kind: "relend", R: 0},
+			{Kind: "lookup", R: 1, Id: 5, Cache: true, Q: 0, Pos: at(2)}, {Kind: "release", R: 1}}},
+		{Kind: "script", Name: "sweep-inside-release", Max: 10, Idle: 3, Busy: 7, Steps: []Step{
+			{Kind: "lookup", R: 0, Id: 5, Cache: true, Q: 2, Pos: head}, {Kind: "create", R: 0},
+			{Kind: "relbegin", R: 0},
+			{Kind: "tick", N: 4}, {Kind: "sweeptime"}, {Kind: "sweepsize"},
+			{Kind: "relend", R: 0},
+			{Kind: "lookup", R: 0, Id: 5, Cache: true, Q: 2, Pos: head}, {Kind: "release", R: 0}}},
 		// every way a cursor ends its life inside the discipline (must pass): uncached release, idle expiry,
 		// busy expiry then release, eviction by size (idle and busy), ApplyState fallback
 		{Kind: "script", Name: "life-cycles", Max: 2, Idle: 3, Busy: 7, Steps: []Step{
